@@ -66,18 +66,26 @@ def schedule(draw, tier="quick"):
             # ... and may register its second strategy only after the first image was processed
             op["staged"] = draw(st.booleans())
         ops.append(op)
-    return {"ops": ops, "async": draw(st.integers(0, 3)) == 0, "strategies": draw(st.sampled_from([["S"], ["S", "T"]]))}
+    c = {"ops": ops, "async": draw(st.integers(0, 3)) == 0, "strategies": draw(st.sampled_from([["S"], ["S", "T"]]))}
+    if draw(st.integers(0, 3)) == 0:
+        c["handicap"] = True  # asian-handicap style market: one selection id on two lines, another on a third
+    return c
 
 
 class Driver:
     def __init__(self, c):
         self.c = c
         self.spec = world.default_market(0, 3)
+        if c.get("handicap"):
+            self.spec["market_type"] = "ASIAN_HANDICAP"
+            self.spec["number_of_winners"] = 0
+            self.spec["bsp_market"] = False
+            self.spec["runners"] = [{"id": 1001, "hc": -1.5, "af": None}, {"id": 1001, "hc": 1.5, "af": None}, {"id": 1002, "hc": 0.5, "af": None}]
         self.exchange = livedouble.Exchange()
         self.lab = None
         self.orders = []  # local order objects of the current instance, creation order
         self.snaps = []  # snapshots taken (CurrentOrders lists) not yet processed
-        self.classes = set()
+        self.classes = {"handicap-lines"} if c.get("handicap") else set()
         self.nontrivial = False
         self.adopted_checked = False
         self.accepted_during_flight = []  # requests accepted on an order while an API call for it was in flight
@@ -244,7 +252,7 @@ class Driver:
 
     def foreign_bet(self, other_market=False):
         """a bet of a strategy this framework does not know: must be ignored without effect"""
-        instr = {"selectionId": self.spec["runners"][0]["id"], "handicap": 0, "side": "BACK", "orderType": "LIMIT",
+        instr = {"selectionId": self.spec["runners"][0]["id"], "handicap": self.spec["runners"][0].get("hc", 0), "side": "BACK", "orderType": "LIMIT",
                  "customerOrderRef": "ffffffffffff0-123456789012345678", "limitOrder": {"price": 2.0, "size": 2.0, "persistenceType": "LAPSE"}}
         b = self.exchange.new_bet(self.FOREIGN_MARKET if other_market else self.spec["id"], instr)
         if other_market:
